@@ -122,11 +122,19 @@ CellOps == {"SetCellText", "SetCellFormattedText", "AddCellFormattedText", "AddC
 RowOps == {"InsertRow", "AppendRow", "DeleteRow", "DeleteRows"}
 ColOps == {"InsertColumn", "AppendColumn", "DeleteColumn", "DeleteColumns"}
 MergeOps == {"MergeCellsHorizontal", "MergeCellsVertical", "MergeCellsRange", "UnmergeCells"}
-ReadOps == {"ReadAll", "CopyTable", "RowFmt"}
+ReadOps == {"ReadAll", "CopyTable", "RowFmt", "TblFmt"}
 AllOps == CellOps \cup RowOps \cup ColOps \cup MergeOps \cup ReadOps \cup {"ClearTable", "Start", "Create"}
 \* the formatting-only calls that address one cell: op "CellFmt" carries which one in its field f
 FmtKinds == {"SetCellFormat", "SetCellShading", "SetCellTextDirection", "ClearCellFormat", "RemoveCellBorders",
              "SetCellBorders", "SetCellPadding"}
+
+\* the formatting-only calls that address the whole table: op "TblFmt" carries which one in its field f
+TblFmtKinds == {"ApplyTableStyle", "SetTableBorders", "SetTableShading", "SetTableLayout", "SetTableAlignment",
+                "RemoveTableBorders", "SetTablePageBreak"}
+\* argument classes of the configuration handed to AddNestedTable (field cfg of the operation; absent = "ok"):
+\* a valid one, no rows, no columns, fewer / more column widths than columns
+NestCfgs == {"ok", "no-rows", "no-cols", "fewer-widths", "more-widths"}
+NestCfgOk(op) == "cfg" \notin DOMAIN op \/ op.cfg = "ok"
 
 \* ---- construction -----------------------------------------------------------------
 \* [op |-> "Create", via, rows, cols, nw, grid]: the table under test comes into being through a constructor
@@ -227,6 +235,7 @@ Valid(t, op) ==
     [] op.op = "AppendColumn" -> NR(t) >= 1 /\ Len(op.data) <= NR(t)
     [] op.op = "DeleteColumn" -> NR(t) >= 1 /\ op.i >= 0 /\ op.i < t.gc /\ t.gc > 1
     [] op.op = "DeleteColumns" -> NR(t) >= 1 /\ op.a >= 0 /\ op.b < t.gc /\ op.a <= op.b /\ t.gc - (op.b - op.a + 1) >= 1
+    [] op.op = "AddNestedTable" -> InC(t, op.r, op.c) /\ NestCfgOk(op)
     [] op.op \in CellOps -> InC(t, op.r, op.c)
     [] op.op = "MergeCellsHorizontal" ->
          /\ InR(t, op.r) /\ op.a >= 0 /\ op.a < op.b /\ op.b < Len(t.rows[op.r + 1])
@@ -246,7 +255,7 @@ Valid(t, op) ==
                   LET run == RunCovering(t.rows[i], L, R)
                   IN run[1] # 0 /\ AllNone(t.rows[i], run[1], run[2])
     [] op.op = "UnmergeCells" -> InC(t, op.r, op.c)
-    [] OTHER -> TRUE    \* ClearTable, CopyTable, ReadAll, RowFmt
+    [] OTHER -> TRUE    \* ClearTable, CopyTable, ReadAll, RowFmt, TblFmt
 
 Do(t, op) ==
   CASE op.op = "Start" -> t   \* resolved by StartTbl below (Apply is overridden for Start)
